@@ -1,17 +1,67 @@
-(** C07 — exported theorems (statements only; proofs in Proofs*.v). *)
+(** C07 — exported theorems (statements only; proofs in Proofs*.v).
+
+    Model: Slots/Model.v (runner/ollamarunner/cache.go + the text path of runner.go over the kvcache.Cache
+    interface), with fixes/C07-shift-reset.patch applied.  [run F cfg (init parallel) ops] is the state after an
+    arbitrary history [ops] of accepted/rejected completion requests ([Submit]) and batches ([Step]); [F] is an
+    arbitrary network+sampler (a function of the history the cache exposes); [cfg] carries context size, batch size,
+    slot policy, whether the model can shift, whether the cache can erase partially / resume, and the EOS token;
+    [parallel] is the number of slots.  All of these are universally quantified. *)
 From Coq Require Import List ZArith Bool Arith Lia.
-From V Require Import Slots.Model.
+From V Require Import Slots.Model Slots.ProofsKv Slots.ProofsSlots Slots.ProofsBatch.
 Import ListNotations.
 Open Scope Z_scope.
+
+(** After any history, for every slot: a slot in use holds in the cache exactly its recorded inputs, at positions
+    0..n-1, nothing else; an idle slot holds exactly its recorded inputs below position n (it may keep entries at
+    positions >= n after a stop sequence shortened the record: LoadCacheSlot erases from numPast <= n on reuse). *)
+Theorem C07_slot_matches_cache :
+  forall (F : list (Z * tok) -> tok) cfg parallel ops,
+    1 <= numCtx cfg ->
+    let st := run F cfg (init parallel) ops in
+    forall i, (i < length (slots st))%nat ->
+      let s := nth_slot (slots st) i in
+      filter (fun e => fst e <? zlen (s_inputs s)) (view (kv st) i) = enumerate 0 (s_inputs s) /\
+      (s_inuse s = true -> view (kv st) i = enumerate 0 (s_inputs s)).
+Proof.
+  intros F cfg parallel ops Hc st i Hi. destruct (reachable_inv F cfg parallel ops Hc) as [Hm _].
+  exact (inv_slots_ok _ _ _ _ _ Hm i Hi).
+Qed.
+Print Assumptions C07_slot_matches_cache.
+
+(** LoadCacheSlot never returns a slot whose InUse flag is set — whatever the slots, cache and prompt. *)
+Theorem C07_no_double_use :
+  forall cfg clk sl kv0 prompt sl' kv' i rest,
+    load_cache_slot cfg clk sl kv0 prompt = Ok (sl', kv', i, rest) ->
+    (i < length sl)%nat /\ s_inuse (nth_slot sl i) = false.
+Proof. exact load_cache_slot_not_inuse. Qed.
+Print Assumptions C07_no_double_use.
+
+(** ... and the flag is truthful: after any history, live sequences hold pairwise different slots, each marked in
+    use, and a request accepted next gets a slot that no live sequence holds. *)
+Theorem C07_no_double_use_reachable :
+  forall (F : list (Z * tok) -> tok) cfg parallel ops,
+    1 <= numCtx cfg ->
+    let st := run F cfg (init parallel) ops in
+    (forall i1 i2 q1 q2, nth i1 (seqs st) None = Some q1 -> nth i2 (seqs st) None = Some q2 -> q_slot q1 = q_slot q2 -> i1 = i2) /\
+    (forall i q, nth i (seqs st) None = Some q -> s_inuse (nth_slot (slots st) (q_slot q)) = true) /\
+    (forall prompt np keep stops idx,
+        snd (submit cfg st prompt np keep stops) = RSubmitted idx ->
+        exists q, nth idx (seqs (fst (submit cfg st prompt np keep stops))) None = Some q /\
+                  forall j q2, nth j (seqs st) None = Some q2 -> q_slot q2 <> q_slot q).
+Proof.
+  intros F cfg parallel ops Hc st. pose proof (reachable_inv F cfg parallel ops Hc) as Hinv. fold st in Hinv.
+  destruct Hinv as [Hm Hin]. split; [|split].
+  - exact (mo_inj _ _ _ _ _ Hm).
+  - intros i q E. exact (lo_inuse _ _ _ _ _ (mo_live _ _ _ _ _ Hm i q E)).
+  - intros prompt np keep stops idx H.
+    destruct (submit_fresh_slot cfg st prompt np keep stops idx (conj Hm Hin) H) as (q & E & _ & Hfresh). eauto.
+Qed.
+Print Assumptions C07_no_double_use_reachable.
 
 (** a full context always frees at least one entry, and never more than what is not kept *)
 Theorem C07_shift_discard_bounds :
   forall cfg inputLen numKeep,
     0 <= numKeep < numCtx cfg -> numCtx cfg <= inputLen ->
     1 <= shift_discard cfg inputLen numKeep /\ numKeep + shift_discard cfg inputLen numKeep <= inputLen.
-Proof.
-  intros cfg inputLen numKeep Hk Hl. unfold shift_discard.
-  assert (H: (numCtx cfg - numKeep) / 2 <= numCtx cfg - numKeep) by (apply Z.div_le_upper_bound; lia).
-  lia.
-Qed.
+Proof. exact shift_discard_bounds. Qed.
 Print Assumptions C07_shift_discard_bounds.
